@@ -108,7 +108,9 @@ func checkSeed(c seedCase) (h.Info, error) {
 		pass, nfkd = a.String(), b.String()
 	}
 	info := h.Info{Class: "seed/plain-passphrase", NT: false}
-	switch {
+	switch n := len(strings.Join(c.Words, " ")); {
+	case werr == nil && (n == 128 || n == 256):
+		info = h.Info{Class: "seed/sentence-fills-hash-blocks", NT: true}
 	case werr != nil:
 		info = h.Info{Class: "seed/invalid-mnemonic", NT: true}
 	case pass == "":
@@ -156,10 +158,32 @@ func genValidWords(t *rapid.T, l *ref.List) []string {
 	return ref.Encode(l, e)
 }
 
+// blockLengthWords searches (deterministically from a drawn seed) for a valid sentence whose joined form
+// is exactly n bytes long: the sentence is the HMAC key of PBKDF2, and 127/128/129 (SHA-512 block size)
+// and 111/112 (padding boundary) are where a hand-written or "optimised" HMAC key schedule goes wrong.
+func blockLengthWords(t *rapid.T, l *ref.List, n int) ([]string, bool) {
+	seed := rapid.Uint64().Draw(t, "blseed")
+	for j := 0; j < 4000; j++ {
+		d := sha512.Sum512([]byte(fmt.Sprintf("%d/%d", seed, j)))
+		for _, size := range []int{16, 20, 24, 28, 32} {
+			w := ref.Encode(l, d[:size])
+			if len(strings.Join(w, " ")) == n {
+				return w, true
+			}
+		}
+	}
+	return nil, false
+}
+
 func genSeed(t *rapid.T) seedCase {
 	lang := h.OneOf(t, "lang", langs...)
 	l := list(lang)
 	words := genValidWords(t, l)
+	if h.Pick(t, "blocklen", 5, 1) == 1 {
+		if w, ok := blockLengthWords(t, l, h.OneOf(t, "bl", 111, 112, 113, 127, 128, 128, 129, 255, 256, 257)); ok {
+			words = w
+		}
+	}
 	if h.Pick(t, "inv", 8, 1) == 1 {
 		switch h.Pick(t, "ik", 2, 1, 1) {
 		case 0:
@@ -188,8 +212,8 @@ func TestSeed(t *testing.T) {
 	h.Run(t, h.Sub[seedCase]{
 		Prop: "C09", Name: "seed", N: 1600,
 		Gen: genSeed, Check: checkSeed,
-		Require: []string{"seed/normalizing-table", "seed/invalid-mnemonic", "seed/empty-passphrase", "seed/normalizing-raw"},
-		Rule:    "valid mnemonics of both lists (all sizes) x passphrases built from a hand-made (raw, NFKD) piece table (composed, compatibility, Hangul, kana, mis-ordered combining marks) or arbitrary strings (NFKD by x/text); seed = own PBKDF2-HMAC-SHA512(2048) over words joined by one space and salt mnemonic||NFKD(passphrase); invalid mnemonics give an error; non-trivial = non-empty passphrase or invalid mnemonic; distinct by case",
+		Require: []string{"seed/normalizing-table", "seed/invalid-mnemonic", "seed/empty-passphrase", "seed/normalizing-raw", "seed/sentence-fills-hash-blocks"},
+		Rule:    "valid mnemonics of both lists (all sizes; one in six searched so that the joined sentence is exactly 111..113, 127..129 or 255..257 bytes long) x passphrases built from a hand-made (raw, NFKD) piece table (composed, compatibility, Hangul, kana, mis-ordered combining marks) or arbitrary strings (NFKD by x/text); seed = own PBKDF2-HMAC-SHA512(2048) over words joined by one space and salt mnemonic||NFKD(passphrase); invalid mnemonics give an error; non-trivial = non-empty passphrase or invalid mnemonic; distinct by case",
 	})
 }
 
@@ -209,6 +233,18 @@ func TestSeedInvalidMnemonic(t *testing.T) {
 			l, other := list(lang), list(langs[0])
 			if lang == langs[0] {
 				other = list(langs[1])
+			}
+			if h.Pick(t, "denorm", 12, 1) == 1 {
+				// a valid sentence in which one word is replaced by a Unicode-equivalent spelling that is not
+				// the list's own (composed kana, full-width Latin letters)
+				words := mgen.ValidSentence(t, l)
+				p := rapid.IntRange(0, len(words)-1).Draw(t, "dp")
+				alt := norm.NFC.String(words[p])
+				if alt == words[p] {
+					alt = fullWidth(words[p])
+				}
+				words[p] = alt
+				return invCase{lang, words, "denormalized-word"}
 			}
 			if h.Pick(t, "impostor", 12, 1) == 1 {
 				if w, ok := mgen.ImpostorSentence(t, l, lang); ok {
@@ -239,6 +275,18 @@ func TestSeedInvalidMnemonic(t *testing.T) {
 			}
 			info := h.Info{Class: cls, NT: true}
 			got, err := bip39.MnemonicToSeed(append(bip39.Mnemonic{}, c.Words...), "TREZOR")
+			if c.Mut == "denormalized-word" && err == nil {
+				// the statement leaves open whether words handed over in a non-normalised spelling are
+				// normalised first; what it excludes is a seed that belongs to neither reading
+				nw := make([]string, len(c.Words))
+				for i, w := range c.Words {
+					nw[i] = norm.NFKD.String(w)
+				}
+				if _, nerr := ref.Decode(list(c.Lang), nw); nerr == nil && bytes.Equal(got, ref.Seed(nw, "TREZOR")) {
+					return h.Info{Class: "invalid/denormalized-word(normalised by the library)", NT: true}, nil
+				}
+				return info, fmt.Errorf("MnemonicToSeed(%q) [%s]: one word is spelled with equivalent but different code points; the call returned the seed %x, which is not the seed of the normalised sentence (and the words as given are not list words)", c.Words, c.Lang, got)
+			}
 			if err == nil || got != nil {
 				return info, fmt.Errorf("MnemonicToSeed(%q) [%s, mutation %s]: the mnemonic is invalid (%v) but a seed %x was returned (err=%v)", c.Words, c.Lang, c.Mut, werr, got, err)
 			}
